@@ -17,13 +17,14 @@ variable {α : Type} [Field α] [LinearOrder α] [IsStrictOrderedRing α]
 
 /-! ### point in triangle -/
 
-/-- the code's `s` and `t` -/
+/-- the code's `s` and `t` (computed relative to the first vertex since the repair of the absolute-coordinate
+formula, `fix: fast_2d_point_in_simplex …`) -/
 def pisS (px py p0x p0y p1x p1y p2x p2y : α) : α :=
-  1 / (2 * (1 / 2 * (-p1y * p2x + p0y * (p2x - p1x) + p1x * p2y + p0x * (p1y - p2y))))
-    * (p0y * p2x + (p2y - p0y) * px - p0x * p2y + (p0x - p2x) * py)
+  1 / (2 * (1 / 2 * ((p1x - p0x) * (p2y - p0y) - (p1y - p0y) * (p2x - p0x))))
+    * ((p2y - p0y) * (px - p0x) - (p2x - p0x) * (py - p0y))
 def pisT (px py p0x p0y p1x p1y p2x p2y : α) : α :=
-  1 / (2 * (1 / 2 * (-p1y * p2x + p0y * (p2x - p1x) + p1x * p2y + p0x * (p1y - p2y))))
-    * (p0x * p1y + (p0y - p1y) * px - p0y * p1x + (p1x - p0x) * py)
+  1 / (2 * (1 / 2 * ((p1x - p0x) * (p2y - p0y) - (p1y - p0y) * (p2x - p0x))))
+    * ((p1x - p0x) * (py - p0y) - (p1y - p0y) * (px - p0x))
 
 theorem pis_closed (px py p0x p0y p1x p1y p2x p2y eps : α) :
     fast_2d_point_in_simplex px py p0x p0y p1x p1y p2x p2y eps =
